@@ -81,8 +81,9 @@ def gen_random(rng, count, min_res, max_res, min_wait, max_wait):
             c["lines"].insert(len(c["lines"]) - 2, "assign-end")
         elif "d" not in kinds and pwd is None and T not in ("ref", "thrower") and (force_bind or rng.random() < 0.6):
             # the controller ends the promise's life through promise::bind(): the promise moves into a function object that is
-            # called (one more resolver call, after all threads), moved and called, or destroyed uncalled (must drop the future)
-            c["lines"].insert(len(c["lines"]) - 2, "bind-end %s %d" % (rng.choice(["call", "move", "drop"]), 30 + rng.randrange(9)))
+            # called (one more resolver call, after all threads), moved and called, or destroyed uncalled (must drop the future);
+            # `throw`: copying the bound argument throws while the function object is built (the promise is gone with it)
+            c["lines"].insert(len(c["lines"]) - 2, "bind-end %s %d" % (rng.choice(["call", "move", "drop", "throw"]), 30 + rng.randrange(9)))
         cases.append(c)
     return cases
 
